@@ -452,6 +452,14 @@ class Arr:
             return False  # numpy: deprecated, empty array is False
         raise ValueError("The truth value of an array with more than one element is ambiguous")
 
+    def __getattr__(self, attr):
+        # an ndarray attribute the model does not cover: the function is undecided, not "raises AttributeError"
+        if attr.startswith("_") or attr in ("to_numpy", "values", "dt", "tz", "calls", "fn", "fv", "fsec", "fns", "fnat", "ns", "secs", "base", "off"):
+            raise AttributeError(attr)
+        if active():
+            cur().unsupported_here("numpy.ndarray.%s is not modelled" % attr)
+        raise AttributeError(attr)
+
     def __repr__(self):
         return "Arr<%s,n=%s>" % (self.kind, self.n)
 
